@@ -152,7 +152,8 @@ def handle (line : String) : Option String :=
     return showExcept id (do
       let c ← Graph.collInit gs
       let rs ← classifyRec c
-      return showFrameLog rs)
+      -- out of fuel (the recording builder of the implementation does not terminate on this input): say so, the log is a prefix only
+      return showFrameLog rs ++ (if rs.all (fun r => r.morph.complete) then "" else " INCOMPLETE"))
   | ["closure", gs] => do
     let gs ← psList? gs
     return showExcept id (do
